@@ -27,6 +27,29 @@ HasType(e, v, t, d) ==
     [] x.k = "variant" -> v.k = "var" /\ v.id \in FieldIds(x.fs) /\ HasType(e, v.v, FieldTy(x.fs, v.id), d - 1)
     [] OTHER -> FALSE
 
+\* typing as the untyped API admits it: anything at reserved (nat at int and null at opt are already in HasType)
+RECURSIVE HasTypeL(_, _, _, _)
+HasTypeL(e, v, t, d) ==
+  LET x == N(e, t) IN
+  IF d = 0 THEN FALSE
+  ELSE CASE x.k = "reserved" -> TRUE
+    [] x.k = "opt" -> v.k = "null" \/ (v.k = "opt" /\ HasTypeL(e, v.v, x.a, d - 1))
+    [] x.k = "vec" -> v.k = "vec" /\ \A i \in DOMAIN v.vs : HasTypeL(e, v.vs[i], x.a, d - 1)
+    [] x.k = "record" -> v.k = "rec" /\ Len(v.fs) = Len(x.fs) /\
+                         \A j \in DOMAIN x.fs : v.fs[j].id = x.fs[j].id /\ HasTypeL(e, v.fs[j].v, x.fs[j].t, d - 1)
+    [] x.k = "variant" -> v.k = "var" /\ v.id \in FieldIds(x.fs) /\ HasTypeL(e, v.v, FieldTy(x.fs, v.id), d - 1)
+    [] OTHER -> HasType(e, v, t, d)
+\* the value as it reads back at t: whatever stands at a reserved position becomes `reserved`
+RECURSIVE NormAt(_, _, _)
+NormAt(e, v, t) ==
+  LET x == N(e, t) IN
+  CASE x.k = "reserved" -> Res
+    [] x.k = "opt" -> IF v.k = "null" THEN Null ELSE [k |-> "opt", v |-> NormAt(e, v.v, x.a)]
+    [] x.k = "vec" -> [k |-> "vec", vs |-> [i \in DOMAIN v.vs |-> NormAt(e, v.vs[i], x.a)]]
+    [] x.k = "record" -> [k |-> "rec", fs |-> [j \in DOMAIN v.fs |-> [id |-> v.fs[j].id, v |-> NormAt(e, v.fs[j].v, x.fs[j].t)]]]
+    [] x.k = "variant" -> [k |-> "var", id |-> v.id, v |-> NormAt(e, v.v, FieldTy(x.fs, v.id))]
+    [] OTHER -> v
+
 \* small inhabitants of every type, to depth d
 PNat(n) == Num(FALSE, NatBits(n))
 PInt(i) == IF i >= 0 THEN PNat(i) ELSE Num(TRUE, NatBits(0 - i))
